@@ -1559,8 +1559,7 @@ package hermes
 //@   aborts-only a parameter or input file of the project cannot be opened or read (environment failure, not a reported input error class)
 //@ func ValAsFloat
 //@   serves C11, C10
-//@   trusted
-//@   ensures parsed: result0 == ufreal("number", toParse)
+//@   ensures-assumed parsed: result0 == ufreal("number", toParse)
 //@   modifies nothing
 //@   aborts-only a numeric field of a parameter table is not a number (malformed table, not a reported input error class)
 
